@@ -111,7 +111,7 @@ package base
 
 
 //@ func (r *TokenResult) ResetToPass()
-//@   props C01, C16
+//@   props C01, C16, C20
 //@   requires r != nil
 //@   ensures[plain-pass] r.status == ResultStatusPass && r.blockErr == nil && r.nanosToWait == 0
 //@   modifies r.status, r.blockErr, r.nanosToWait
